@@ -436,7 +436,7 @@ impl<'tcx> Ctx<'tcx> {
         J::obj(b)
     }
 
-    fn function(&self, ld: LocalDefId, body: &Body<'tcx>) -> Option<J> {
+    fn function(&self, ld: LocalDefId, body: &Body<'tcx>, promoted: bool) -> Option<J> {
         let tcx = self.tcx;
         let did = ld.to_def_id();
         let kind = tcx.def_kind(did);
@@ -488,6 +488,9 @@ impl<'tcx> Ctx<'tcx> {
             }
         }
         f.push(("arg_count", J::Int(body.arg_count as i128)));
+        if promoted {
+            f.push(("mir_phase", J::s("promoted")));
+        }
         // user variable names
         let mut names: Vec<Option<String>> = vec![None; body.local_decls.len()];
         let mut upvar_names: Vec<(usize, String)> = Vec::new();
@@ -598,23 +601,50 @@ impl Callbacks for Cb {
         let cx = Ctx { tcx };
         // Pass 1: clone every body out of `mir_built` before running any query that could
         // steal one (opaque-type inference runs borrowck, const-eval runs the MIR pipeline).
-        let mut bodies: Vec<(LocalDefId, Body<'tcx>)> = Vec::new();
+        let mut bodies: Vec<(LocalDefId, Body<'tcx>, bool)> = Vec::new();
         let mut stolen: Vec<J> = Vec::new();
-        for ld in tcx.mir_keys(()).iter() {
-            let kind = tcx.def_kind(ld.to_def_id());
-            if !matches!(kind, DefKind::Fn | DefKind::AssocFn | DefKind::Closure | DefKind::SyntheticCoroutineBody) {
-                continue;
+        let mut keys: Vec<LocalDefId> = tcx
+            .mir_keys(())
+            .iter()
+            .copied()
+            .filter(|ld| {
+                matches!(
+                    tcx.def_kind(ld.to_def_id()),
+                    DefKind::Fn | DefKind::AssocFn | DefKind::Closure | DefKind::SyntheticCoroutineBody
+                )
+            })
+            .collect();
+        // Functions that define an opaque return type (async fn / `-> impl Trait`) first: type-checking a
+        // caller asks for the hidden type, which runs borrowck on the definer and steals its `mir_built`.
+        let defines_opaque = |ld: &LocalDefId| -> bool {
+            let did = ld.to_def_id();
+            match tcx.def_kind(did) {
+                DefKind::Fn | DefKind::AssocFn => {
+                    let sig = tcx.fn_sig(did).skip_binder().skip_binder();
+                    tcx.asyncness(did).is_async() || format!("{:?}", sig.output()).contains("Opaque")
+                        || sig.output().to_string().contains("impl ")
+                }
+                _ => false,
             }
+        };
+        keys.sort_by_key(|ld| if defines_opaque(ld) { 0 } else { 1 });
+        for ld in keys.iter() {
             let st = tcx.mir_built(*ld);
-            if st.is_stolen() {
-                stolen.push(J::Str(path_of(tcx, ld.to_def_id())));
+            if !st.is_stolen() {
+                bodies.push((*ld, st.borrow().clone(), false));
                 continue;
             }
-            bodies.push((*ld, st.borrow().clone()));
+            // fall back to the promoted MIR (still before drop elaboration and the coroutine transform)
+            let (pm, _) = tcx.mir_promoted(*ld);
+            if !pm.is_stolen() {
+                bodies.push((*ld, pm.borrow().clone(), true));
+                continue;
+            }
+            stolen.push(J::Str(path_of(tcx, ld.to_def_id())));
         }
         let mut fns = Vec::new();
-        for (ld, body) in &bodies {
-            if let Some(j) = cx.function(*ld, body) {
+        for (ld, body, promoted) in &bodies {
+            if let Some(j) = cx.function(*ld, body, *promoted) {
                 fns.push(j);
             }
         }
